@@ -69,4 +69,10 @@ META = {
         note="Interleavings are the ones the Go scheduler and the transport stalls produced (fingerprints are counted in the evidence); the in-memory transport models per-call atomic writes.",
         technique="runtime monitoring: offline checker over the transport byte log (exactly-once, per-writer order, integrity) + race detector; enumerated partial-write/temporary-error fault scripts",
     ),
+    "C08": dict(
+        text="Exploration: thousands of arrival-pattern x handler-behaviour scenarios per run on the real server / connection code under the race detector, each decided by an online per-connection monitor and by progress checks at quiescence instead of wall-clock time-outs.",
+        design_ref="DESIGN.md section 4, C08",
+        note="Schedules are those produced by the bubble's scheduler for the enumerated arrival patterns; independence is checked as 'dispatched at quiescence', a bounded-progress restatement.",
+        technique="runtime monitoring: online in-flight/order monitor in handlers, progress assertions at synctest quiescence, race detector",
+    ),
 }
